@@ -372,7 +372,7 @@ theorem rebuild_specM {K : Nat} : ∀ (v : View) (old : RState) (s : St), RM K s
     | «show» e m c' a' b' left inner => exact replace_specM hi hw hc (vo := .show c a b) hg hw hc
     | _ => simp only [GoodM] at hg
   | scope sid d kid _ => intro old s _ _ _ hc; simp [View.coreS] at hc
-  | forRows sel lists row _ => intro old s _ _ _ hc; simp [View.coreS] at hc
+  | forRows en sel lists row _ => intro old s _ _ _ hc; simp [View.coreS] at hc
   | forKeyed sel lists =>
     intro old s hi hg hw hc _
     cases old with
